@@ -31,6 +31,10 @@ def cells(tier):
         out.append(cell(f"inf->{new} A3 cancel0(slow ccb) then B2", sc, MON))
         sc = scen(pool(3), [[A("A", 3)], [cancel(rid("A", 1))], [["set_size", new], A("B", 2)]], outcomes=["ret"], ecb="slow", ccb="plain", slow_ids=[1])
         out.append(cell(f"3->{new} A3 cancel1(slow ecb) then B2", sc, MON))
+    # a slot in transit to a woken spawner, then the pool is shrunk and that spawner's group cancelled, then a new request
+    for old, new in [(2, 1), (1, 0), (3, 2)]:
+        sc = scen(pool(old), [[A("A", old + 1)], [["set_size", new]], [cgroup("A"), A("B", 2)]], outcomes=["ret"])
+        out.append(cell(f"{old}->{new} A{old + 1} resize|cgroupA,B2 (slot in transit)", sc, MON))
     sc = scen(pool(1, "SimpleTaskPool"), [[S("S", 3)], [["set_size", 2]], [["set_size", 0]]], outcomes=["ret"])
     out.append(cell("simple 1->2,->0 S3", sc, MON))
     if not q:
